@@ -365,6 +365,21 @@ theorem C21_failed_append_then_reopen (n : Node) (a : Ack) (lv : Live) (es : Lis
     | cons r rs ih => simp only [appendRecs, List.foldl_cons] at ih ⊢; rw [ih]; rfl
   rw [hcons, hc, List.drop_zero, replay_append, hi.log, replay_entries]
 
+/-- **What the restarted store reports after a failed vote / committed / truncate write.**  These operations write
+one record; when that write fails nothing reaches the log, and the restarted store reports exactly the acknowledged
+state (the running process had already changed its memory - it is gone with the process). -/
+theorem C21_failed_single_record_then_reopen (n : Node) (a : Ack) (lv : Live) (op : Op)
+    (hi : Inv n a) (hlive : n.live = some lv) (hc : n.wal.consumed = 0)
+    (hop : (∃ v, op = .vote v) ∨ (∃ c, op = .committed c) ∨ (∃ l, op = .truncate l)) :
+    (stepFault n op 0).2.1 = none ∧
+    ((step (step (stepFault n op 0).1 .kill).1 .open_).1.live.map (·.mem)) = some a.mem := by
+  rcases hop with ⟨v, rfl⟩ | ⟨c, rfl⟩ | ⟨l, rfl⟩ <;>
+  · unfold stepFault
+    simp only [hlive, if_true]
+    refine ⟨trivial, ?_⟩
+    simp only [step, stepG, openWith, Wal.readAll, Option.map_some]
+    rw [hc, List.drop_zero, hi.log]
+
 /-- the first entry of a three-entry append is written, the second fails: the restarted store has the acknowledged
 entry 1 and the unacknowledged entry 2, not 3 and 4 -/
 example : (stepFault (run {} {} [.open_, .append [⟨⟨1, 1⟩, 5⟩]]).1 (.append [⟨⟨2, 1⟩, 7⟩, ⟨⟨3, 1⟩, 0⟩, ⟨⟨4, 1⟩, 64⟩]) 1).2.1 = none ∧
